@@ -227,6 +227,19 @@ def e_bool(ctx, depth=0):
     return both('({} is not None)', '({} !== null)', 'bool', field(ctx))
 
 
+def e_strict_b(ctx):
+    """A condition over a raw b-field that raises when the field is None: a WHERE must not be
+    evaluated for input records without a join partner."""
+    d = ctx.draw
+    f = field(ctx, table='b', allow_past_end=False)
+    k = d(st.integers(0, 2))
+    if k == 0:
+        return mk('len(%s) >= 0' % f['py'], '%s.length >= 0' % f['js'], 'bool')
+    if k == 1:
+        return mk('%s.upper() == %s.upper()' % (f['py'], f['py']), '%s.toUpperCase() == %s.toUpperCase()' % (f['js'], f['js']), 'bool')
+    return mk("%s[0:1] != 'zz'" % f['py'], "%s.slice(0, 1) != 'zz'" % f['js'], 'bool')
+
+
 def e_truthy(ctx):
     """WHERE conditions: not only bools."""
     d = ctx.draw
@@ -585,6 +598,8 @@ def st_case_select(draw, js=False, join_p=3, order=False, distinct=False, top=Fa
     q['join'] = join
     if where_p and draw(st.integers(0, where_p - 1)) == 0:
         q['where'] = e_truthy(ctx)
+    if join is not None and bw > 0 and draw(st.integers(0, 7)) == 0:
+        q['where'] = e_strict_b(ctx)
     if order and draw(st.integers(0, 3)) != 0:
         nk = draw(st.integers(1, 2))
         q['order'] = {'keys': [e_key(ctx) for _ in range(nk)], 'desc': draw(st.booleans()), 'asc_kw': draw(st.booleans())}
@@ -663,4 +678,6 @@ def st_case_update(draw, js=False, join_p=4, multi_match=False):
     q['update_a'] = form == 2
     if draw(st.integers(0, 2)) != 0:
         q['where'] = e_truthy(ctx)
+    if join is not None and bw > 0 and draw(st.integers(0, 2)) == 0:
+        q['where'] = e_strict_b(ctx)
     return {'A': A, 'B': B, 'a_names': a_names, 'b_names': b_names, 'q': q}
